@@ -1029,6 +1029,128 @@ func runC05(c *Ctx) {
 	}
 
 	// ---------------- O5.8
+	// ---------------- O5.9: one awaited result per started pool
+	c.Rule("O5.9", "Engine.Run waits for every pool it started: one pool goroutine is started per element of the configured pools, and the loop that receives the pools' results is counted by that same number (i from 0 while i < len(Pools), one receive per iteration) - not by a set of names or anything else two pools can share (with a set keyed by pool id two pools of one id count as one: Run returns success while the second still runs, and its failure is lost)")
+	{
+		var recvSel ssa.Instruction
+		// (Engine.Run and the helpers of the package it calls: startPools / awaitPools)
+		o59region := FindFuncs(engRun, 1, func(g *ssa.Function) bool {
+			if g == engRun {
+				return true
+			}
+			site := SoleCallSite(g)
+			return g.Parent() == nil && PkgOf(g) == PkgOf(engRun) && site != nil && site.Parent() == engRun && g.Signature.Recv() != nil && engRun.Signature.Recv() != nil && types.Identical(g.Signature.Recv().Type(), engRun.Signature.Recv().Type())
+		})
+		eachO59 := func(f func(ssa.Instruction)) {
+			for _, g := range o59region {
+				if g.Parent() == nil {
+					EachInstr(g, f)
+				}
+			}
+		}
+		eachO59(func(in ssa.Instruction) {
+			switch x := in.(type) {
+			case *ssa.Select:
+				for _, st := range x.States {
+					if st.Dir == types.RecvOnly {
+						if ch, ok := st.Chan.Type().Underlying().(*types.Chan); ok {
+							if _, tn := NamedOf(ch.Elem()); tn == "poolRunResult" {
+								recvSel = in
+							}
+						}
+					}
+				}
+			case *ssa.UnOp:
+				if x.Op == token.ARROW {
+					if ch, ok := x.X.Type().Underlying().(*types.Chan); ok {
+						if _, tn := NamedOf(ch.Elem()); tn == "poolRunResult" {
+							recvSel = in
+						}
+					}
+				}
+			}
+		})
+		if recvSel == nil {
+			c.Anchor("O5.9", "the receive of a poolRunResult in Engine.Run")
+		} else {
+			isPools := func(v ssa.Value) bool {
+				return DerivesOnly(v, false, func(r ssa.Value) bool {
+					fv, _ := FieldOf(Strip(r))
+					return fv != nil && fv.Name() == "Pools"
+				})
+			}
+			counted := false
+			for _, f := range CmpFactsAt(recvSel) {
+				f = f.Canon()
+				if f.Op != token.LSS {
+					continue
+				}
+				phi, isPhi := f.X.(*ssa.Phi)
+				lc, isLen := f.Y.(*ssa.Call)
+				if !isPhi || !isLen || !IsBuiltinCall(lc, "len") || !isPools(lc.Call.Args[0]) || len(phi.Edges) != 2 {
+					continue
+				}
+				nInit, nStep := 0, 0
+				for _, e := range phi.Edges {
+					if k, isK := ConstInt(e); isK && k == 0 {
+						nInit++
+					}
+					if b, isB := e.(*ssa.BinOp); isB && b.Op == token.ADD && b.X == ssa.Value(phi) {
+						if k, isK := ConstInt(b.Y); isK && k == 1 {
+							nStep++
+						}
+					}
+				}
+				counted = nInit == 1 && nStep == 1
+			}
+			// the range-over-int / range-over-slice forms: the select sits in a loop whose header tests a range index
+			// against len(Pools)
+			if hdr := loopHeaderOf(recvSel.Block()); hdr != nil && !counted {
+				if iff, ok := hdr.Instrs[len(hdr.Instrs)-1].(*ssa.If); ok {
+					f := CondFact(iff.Cond, true).Canon()
+					if f.Y != nil && f.Op == token.LSS {
+						if lc, isLen := f.Y.(*ssa.Call); isLen && IsBuiltinCall(lc, "len") && isPools(lc.Call.Args[0]) {
+							if b, isB := f.X.(*ssa.BinOp); isB && b.Op == token.ADD {
+								if phi, isPhi := b.X.(*ssa.Phi); isPhi && len(phi.Edges) == 2 {
+									k, isK := ConstInt(phi.Edges[0])
+									counted = isK && k == -1 && phi.Edges[1] == ssa.Value(b)
+								}
+							}
+						}
+					}
+				}
+			}
+			iv := PathQuery{Fn: recvSel.Parent(), Start: recvSel, StopBlock: loopHeaderOf(recvSel.Block()), Exit: func(*ssa.BasicBlock) bool { return false }, Weight: func(in ssa.Instruction) (int, int) {
+				if in == recvSel {
+					return 1, 1
+				}
+				return 0, 0
+			}}.Count()
+			c.Check(counted && (iv.NoPath || iv.Is(0, 0)), "O5.9", fk(engRun)+":one-awaited-result-per-pool", recvSel.Pos(),
+				fmt.Sprintf("the receive of pool results runs in a loop counted from 0 to len(config.Pools): %v; further receives in the same iteration: %v", counted, iv))
+			// one pool goroutine per configured pool: the go statement sits in the range over Pools, once per iteration
+			nGo := 0
+			eachO59(func(in ssa.Instruction) {
+				if _, ok := in.(*ssa.Go); ok {
+					nGo++
+					hdr := loopHeaderOf(in.Block())
+					okRange := false
+					if hdr != nil {
+						if iff, isIf := hdr.Instrs[len(hdr.Instrs)-1].(*ssa.If); isIf {
+							f := CondFact(iff.Cond, true).Canon()
+							if f.Y != nil && f.Op == token.LSS {
+								if lc, isLen := f.Y.(*ssa.Call); isLen && IsBuiltinCall(lc, "len") && isPools(lc.Call.Args[0]) {
+									okRange = true
+								}
+							}
+						}
+					}
+					c.Check(okRange, "O5.9", fk(engRun)+":one-goroutine-per-pool", in.Pos(), "the pool goroutine is started inside the loop over config.Pools")
+				}
+			})
+			c.Floor("O5.9", "go statements in Engine.Run", nGo, 1)
+		}
+	}
 	for _, fn := range []*ssa.Function{engRun, poolRun} {
 		key := fk(fn)
 		// deferred cancel
